@@ -78,6 +78,10 @@ def pos_module(idx, d, text, info, nostd):
     if not info['storage']:
         for s in states[:2]:
             L.append(f'const _: () = assert!(core::mem::size_of::<{MT(s)}>() == core::mem::size_of::<Ctx>());')
+    if info['dynamic']:
+        # the dynamic API exists whenever it is requested (by `dynamic: true` or by the crate feature)
+        DT0 = info['dynname'] if conc else f"{info['dynname']}<Ctx>"
+        L.append(f'fn dyn_exists(d: &{DT0}) -> &\'static str {{ d.current_state() }}')
     if asy:
         evp = {e['name']: e for e in info['events']}
         for k, e in enumerate(info['edges']):
@@ -265,6 +269,10 @@ def run(tier, seed, work, repo, ill_suspects=None):
     jobs = []
     for cname, feature, nostd, dkw in configs:
         ds = gen_pos_defs(rng, cfg['pos'] // len(configs) + 1, dkw, full=True)
+        if feature:
+            # with the crate feature on, an explicit `dynamic: false` (or `async: false`) changes nothing
+            ds = [([it for it in d if it[0] != 'dynamic'] + [('dynamic', False)]) if i % 2 else d for i, d in enumerate(ds)]
+            ds = [(d + [('async', False)]) if (i % 4 == 1 and not any(it[0] == 'async' for it in d)) else d for i, d in enumerate(ds)]
         items = [(f'{cname}{i}', feature, d) for i, d in enumerate(ds)]
         infos = T.get_infos(items)
         mods = []
